@@ -133,7 +133,7 @@ def classify(diags, build):
             clause = None
             for s in spans:
                 lab = (s.get('label') or '')
-                if 'failed this postcondition' in lab or 'failed precondition' in lab:
+                if 'failed this postcondition' in lab or 'failed precondition' in lab or 'failed this invariant' in lab:
                     clause = s
             if clause is None:
                 clause = p
